@@ -5,6 +5,7 @@ import (
 	"encoding/json"
 	"fmt"
 	"io"
+	"math"
 	"slices"
 	"strconv"
 
@@ -186,6 +187,16 @@ func (m *JSONMarshaler) marshalSingular(opts *protojson.MarshalOptions, value pr
 		}
 	case protoreflect.MessageKind, protoreflect.GroupKind:
 		return opts.Marshal(value.Message().Interface())
+	case protoreflect.FloatKind, protoreflect.DoubleKind:
+		// encoding/json refuses to marshal these values, the Proto3 JSON Mapping specifies them as strings.
+		switch f := value.Float(); {
+		case math.IsNaN(f):
+			marshalVal = "NaN"
+		case math.IsInf(f, 1):
+			marshalVal = "Infinity"
+		case math.IsInf(f, -1):
+			marshalVal = "-Infinity"
+		}
 	default:
 	}
 
